@@ -39,6 +39,7 @@ inductive Reason
   | enumArrayUnaligned     -- an array of enums whose width is not a multiple of 8
   | zeroWidth              -- a bit-field, enum or array element of width 0
   | shadowedField          -- a declaration re-declares the identifier of an inherited field
+  | hugeWidth              -- Python: a width of 2^24 bits or more (mask literals and generator work linear in the width)
   -- the generator returns, the target compiler rejects the output
   | sizeAfterArray         -- a size / count / element-size field declared after the field it measures
   | payloadBeforeDynamic   -- an unsized payload followed by a field that is neither static nor padded
@@ -68,7 +69,7 @@ def Reason.base : Reason → String
   | .modifierOverflow => "modifierOverflow" | .multipleUnknownSize => "multipleUnknownSize"
   | .forwardArrayType => "forwardArrayType" | .bodyWithoutChildren => "bodyWithoutChildren"
   | .constraintOnAncestor => "constraintOnAncestor" | .ancestorWithoutPayload => "ancestorWithoutPayload"
-  | .enumArrayUnaligned => "enumArrayUnaligned" | .zeroWidth => "zeroWidth" | .shadowedField => "shadowedField"
+  | .enumArrayUnaligned => "enumArrayUnaligned" | .zeroWidth => "zeroWidth" | .shadowedField => "shadowedField" | .hugeWidth => "hugeWidth"
   | .sizeAfterArray => "sizeAfterArray" | .payloadBeforeDynamic => "payloadBeforeDynamic"
   | .elementSizeOfScalars => "elementSizeOfScalars" | .constraintOnOptional => "constraintOnOptional"
   | .payloadlessParent => "payloadlessParent" | .fixedOnRangeTag => "fixedOnRangeTag"
@@ -407,7 +408,8 @@ def pre (t : Target) (f : File) : List Reason :=
     when mis .misaligned ++
     when (forwardArray f false) .forwardArrayType ++
     when (zeroWidths f true) .zeroWidth ++
-    when (shadows' f) .shadowedField
+    when (shadows' f) .shadowedField ++
+    when (widthsOver f (2 ^ 24 - 1) true true) .hugeWidth
   | .cxx =>
     when (widthsOver f 64 false true) .scalarTooWide ++
     when ((packets f).any (unknownThenDynamic sc)) .multipleUnknownSize ++
